@@ -52,9 +52,7 @@ func stmtCase(text string, params map[string]interface{}, valid bool) []string {
 
 func newStmtParser(text string, params map[string]interface{}) *influxql.Parser {
 	p := influxql.NewParser(strings.NewReader(text))
-	if len(params) > 0 {
-		p.SetParams(params)
-	}
+	applyParams(p, text, params)
 	return p
 }
 
